@@ -296,6 +296,13 @@ func TestReplay(t *testing.T) {
 	if err != nil {
 		t.Fatalf("cannot load %s: %v", *replayFile, err)
 	}
+	if c.Guards != "" {
+		// judge the case under the steering of the run that produced it
+		for _, g := range strings.Split(c.Guards, ",") {
+			guards[g] = true
+		}
+		applyGlobalGuards()
+	}
 	if rp, ok := customReplays[c.Property]; ok {
 		rp(t, c, *replayFile)
 		return
